@@ -333,6 +333,9 @@ impl Prop for C08 {
         let c = self.case(idx);
         let expect_len = c.w as usize * c.h as usize * 4;
         let data_len = c.data.len();
+        // small cases are decoded again right afterwards under other dimensions (same bytes, same destination rectangle)
+        let again: Option<Vec<u8>> = if (c.w as usize) * (c.h as usize) <= 1024 && c.w < 0xFFFF && c.h < 0xFFFF { Some(crate::alloc::exempt(|| c.data.clone())) } else { None };
+        let (w0, h0, bpp0, compress0, block0) = (c.w, c.h, c.bpp, c.compress, c.block);
         let ev = BitmapEvent { dest_left: 0, dest_top: 0, dest_right: c.w.wrapping_sub(1), dest_bottom: c.h.wrapping_sub(1), width: c.w, height: c.h, bpp: c.bpp, is_compress: c.compress, data: c.data };
         crate::alloc::reset();
         let r = ev.decompress();
@@ -342,15 +345,31 @@ impl Prop for C08 {
             return Outcome::fail("memory", "allocation-out-of-proportion", format!("peak {} bytes > bound {} for {}x{} data {}", peak, bound, c.w, c.h, data_len));
         }
         let nontrivial = data_len > 0 && (c.bpp == 16 || c.bpp == 32);
-        match r {
+        match &r {
             Ok(v) => {
                 if v.len() != expect_len {
                     let sig = format!("wrong-output-length-bpp{}-{}", c.bpp, if c.compress { "compressed" } else { "raw" });
                     return Outcome::fail("badlen", sig, format!("Ok with {} bytes, expected {} ({}x{}x4), block {}", v.len(), expect_len, c.w, c.h, c.block));
                 }
-                Outcome::pass(format!("ok-bpp{}-{}", c.bpp, c.compress), nontrivial)
             }
-            Err(_) => Outcome::pass(format!("err-bpp{}-{}", c.bpp, c.compress), nontrivial),
+            Err(_) => {}
+        }
+        let first_ok = r.is_ok();
+        if let Some(data) = again {
+            for (w2, h2) in [(w0 + 1, h0), (w0, h0 + 1), (h0, w0.max(1) + 2)] {
+                let ev2 = BitmapEvent { dest_left: 0, dest_top: 0, dest_right: w0.wrapping_sub(1), dest_bottom: h0.wrapping_sub(1), width: w2, height: h2, bpp: bpp0, is_compress: compress0, data: crate::alloc::exempt(|| data.clone()) };
+                if let Ok(v) = ev2.decompress() {
+                    if v.len() != w2 as usize * h2 as usize * 4 {
+                        let sig = format!("wrong-output-length-bpp{}-{}-for-the-same-bytes-under-other-dimensions", bpp0, if compress0 { "compressed" } else { "raw" });
+                        return Outcome::fail("badlen", sig, format!("after a {}x{} decode, the same bytes as {}x{} (same destination rectangle): Ok with {} bytes, expected {}, block {}", w0, h0, w2, h2, v.len(), w2 as usize * h2 as usize * 4, block0));
+                    }
+                }
+            }
+        }
+        if first_ok {
+            Outcome::pass(format!("ok-bpp{}-{}", bpp0, compress0), nontrivial)
+        } else {
+            Outcome::pass(format!("err-bpp{}-{}", bpp0, compress0), nontrivial)
         }
     }
 }
